@@ -360,6 +360,19 @@ func runConditionsStruct(c *Ctx, n int, timeFocus bool) {
 		cond := a.Conditions
 		// --- time window ---
 		offs := []time.Duration{0, -1, 1, -time.Second, time.Second, -time.Hour, time.Hour, -500 * time.Millisecond, 500 * time.Millisecond}
+		// instants that are NOT part of the Conditions window (session end, authentication instant, issue instant) at the
+		// same critical offsets: the time warning is about [NotBefore, NotOnOrAfter) of the Conditions only
+		if r.Intn(2) == 0 {
+			t := now.Add(offs[r.Intn(len(offs))])
+			a.AuthnStatement.SessionNotOnOrAfter = &t
+		}
+		if r.Intn(3) == 0 {
+			t := now.Add(offs[r.Intn(len(offs))])
+			a.AuthnStatement.AuthnInstant = &t
+		}
+		if r.Intn(4) == 0 {
+			a.IssueInstant = now.Add(offs[r.Intn(len(offs))])
+		}
 		dnb := -time.Hour
 		dnoa := time.Hour
 		if timeFocus || r.Intn(2) == 0 {
